@@ -86,6 +86,10 @@ def enc_value(v):
         return ['none']
     if type(v).__name__ == 'TagBlockGroup':
         return ['group', v.sentence_num, v.sentence_tot, v.group_id]
+    if isinstance(v, (bytes, bytearray)):
+        return ['bytes', bytes(v).hex()]
+    if isinstance(v, tuple):
+        return ['tuple', [enc_value(x) for x in v]]
     return [type(v).__name__, v]
 
 
@@ -95,6 +99,10 @@ def dec_value(e):
         return None
     if e[0] == 'group':
         return TagBlockGroup(e[1], e[2], e[3])
+    if e[0] == 'bytes':
+        return bytes.fromhex(e[1])
+    if e[0] == 'tuple':
+        return tuple(dec_value(x) for x in e[1])
     return {'str': str, 'int': int, 'float': float, 'bool': bool}[e[0]](e[1])
 
 
